@@ -11,7 +11,7 @@ import warnings
 
 import numpy as np
 
-from common import (Outcome, Machinery, run_tlc, need_ok, run_cases,
+from common import (unique, Outcome, Machinery, run_tlc, need_ok, run_cases,
                     validate_traces, settle, seed, main_wrap)
 
 PROP = 'C16'
@@ -83,7 +83,8 @@ def run(tier):
                 'sets + emission')
     if r.violated:
         out.model_violation(r, 'Lookup_MC')
-    cfgs = [p for p in r.prints if isinstance(p, dict) and 'probes' in p]
+    cfgs = unique([p for p in r.prints
+                   if isinstance(p, dict) and 'probes' in p])
     if not cfgs:
         raise Machinery('Lookup_MC emitted nothing')
     out.cov['configurations_emitted'] = len(cfgs)
